@@ -14,9 +14,10 @@
 (***************************************************************************)
 EXTENDS Ptrace, Json, IOUtils, TLCExt
 Rec == ndJsonDeserialize(IOEnv.TRACE)
-Hdr == Rec[1]                            \* {"ev":"header","n":threads,"sandbox":[..],"maxsend":k,"steps":flushes}
+Hdr == Rec[1]                            \* {"ev":"header","n":threads,"sandbox":[..],"slow":[..],"maxsend":k,"steps":flushes}
 TraceT == 1..Hdr.n
 TraceSandbox == {Hdr.sandbox[k] : k \in 1..Len(Hdr.sandbox)}
+TraceSlow == {Hdr.slow[k] : k \in 1..Len(Hdr.slow)}          \* threads that sit in vfork() when the dump starts
 TraceMaxSend == Hdr.maxsend
 TraceSteps == Hdr.steps
 VARIABLES l, silent
@@ -54,7 +55,7 @@ T_Observe     == Is("Observe") /\ pc = "done"
 (* before the final observation every queued signal may still have to be dequeued, and every thread to run again *)
 MaxSilentNow == IF Is("Observe") THEN MaxSilent + 2 * Hdr.maxsend + 2 * Hdr.n ELSE MaxSilent
 Silent == /\ silent < MaxSilentNow /\ l' = l /\ silent' = silent + 1
-          /\ \/ \E t \in T : Dequeue(t) \/ Run(t)
+          /\ \/ \E t \in T : Dequeue(t) \/ Run(t) \/ Wake(t)
              \/ SoftErr
 TNext == T_StopProcess \/ T_Poll \/ T_Enumerate \/ T_AttachOk \/ T_AttachFail \/ T_Wait \/ T_Suspended \/ T_Stream \/ T_StreamsDone
          \/ T_Abort \/ T_Detach \/ T_ResumeEnd \/ T_SigCont \/ T_Send \/ T_Exit \/ T_Observe \/ Silent
